@@ -320,6 +320,10 @@ fn exec<'b>(sc: usize, b: &'b Bump, slot: &mut Option<BVec<'b, Tracked>>, held: 
 
 fn post_checks(rep: &mut Report, sc: usize, k: u64, phase: &str, slot: &Option<BVec<Tracked>>, held: &[Tracked], fired: bool) {
     let name = SCENARIOS[sc].0;
+    let g = ledger::take_garbage_drops();
+    if g > 0 {
+        rep.violate("C16", format!("C16/{}/destructor-ran-on-a-slot-that-holds-no-value/{}", name, phase), format!("{} destructor call(s) on garbage (panic at callback #{})", g, k));
+    }
     let d = ledger::doubles();
     if !d.is_empty() {
         rep.violate("C16", format!("C16/{}/double-drop/{}", name, phase), format!("ids {:?} dropped twice (panic at callback #{}, fired={})", d, k, fired));
